@@ -375,7 +375,7 @@ PROPS = {
         "streams": ["mem", "wrapops", "bigmem"],
         "rule": "mem requests for every DecodeWithMemTracking catalogue type on valid and mutated encodings: first L = usize::MAX (gives U = used_mem()), then every L in 0..=U+1 when U <= 96 (4096 thorough), boundary limits {0,1,U/2,U-1,U,U+1,2U} otherwise: result, remaining and used_mem() compared with the model after success and failure; oracles: non-binding limit transparent, success for all L > U, failure for all 0 < L <= U; plus operation sequences (hook sizes incl. 0, usize::MAX and saturating sums; limits incl. 0 and usize::MAX) on a real MemTrackingInput vs the model, used_mem() compared after every operation. non-trivial = distinct request whose model answer is not `err`; for every untampered encoding used_mem() of the real crate is compared with the model's payload(ty, v) Also: usage seen through decode_with_depth_limit over a MemTrackingInput, through CountedInput over it and through a tracker stacked on a tracker must equal U; skip under every limit agrees with decode; the probe inner input (mops2).",
         "level_text": "Proved in Lean for every type, byte string and limit L <= usize::MAX: memory-limited decoding returns exactly the unlimited result or an error; with U the tracked usage of the unlimited run, if unlimited decoding succeeds then L > U gives the same value, position and used_mem = U, and U > 0 with L <= U gives an error - a single exact threshold (hence monotone). The hook sizes (chunked vec reservations, Box sizes, list node sizes, the transliterated mem_size_of_btree estimate) are part of the decoder model and compared with used_mem() of the real MemTrackingInput on every request. The threshold is meaningful: by the hook-trace theorem the sizes announced while decoding the encoding of any well-formed value add up to exactly payload ty v - element count x element size per sequence, pointee size per box, string/byte-buffer length, bit-sequence storage words, the crate's node estimate for trees, summed over nesting (tracked_usage_is_payload: U = min(payload, usize::MAX)); U = 0 for heap-free types (usage_zero_without_heap); a successful memory-limited decode implies payload < L (limit_bounds_payload); the tree estimate is within a factor of two of the entries' own bytes (tree_estimate_within_factor_two, arithmetic on the transliterated mem_size_of_btree).",
-        "level_note": "Trusted: as C01; size_of values and the b-tree leaf size are measured by the harness in the same build and passed in the type descriptor. 'U is zero for values holding no heap data and at least the payload bytes' is a theorem (tracked_usage_is_payload: U = the value's heap payload, summed over nesting and capped at usize::MAX; usage_zero_without_heap; limit_bounds_payload) and is tied per request by comparing the model's U with the real used_mem(). User-defined wrapper types relying on the provided WrapperTypeDecode::decode_wrapped announce nothing: the model has no constructor for them (they are described as `box 0 T`, exact except under a limit of 0) and they are kept out of the `mem` stream.",
+        "level_note": "Trusted: as C01; size_of values and the b-tree leaf size are measured by the harness in the same build and passed in the type descriptor. 'U is zero for values holding no heap data and at least the payload bytes' is a theorem (tracked_usage_is_payload: U = the value's heap payload, summed over nesting and capped at usize::MAX; usage_zero_without_heap; limit_bounds_payload) and is tied per request by comparing the model's U with the real used_mem(). User-defined wrapper types relying on the provided WrapperTypeDecode::decode_wrapped announce nothing (Ty.wrap; user_wrapper_announces_nothing) - unlike Box, which at a limit of 0 is refused even for a zero-sized pointee.",
         "trusted_base": COMMON_TB + ["size_of::<T>() measured by the harness"],
         "assumptions": ["limits are usize values (L <= 2^64-1)"],
     },
